@@ -259,6 +259,18 @@ def c19_refrac_ignored():
     return mingap >= 5, f"minimum gap {mingap} steps with refrac = 5 steps"
 
 
+def c19_online_exp_interval_shape():
+    """C19: the online refractory encoder yields `steps` per-step slices (any number of elements)."""
+    from inferno.neural.functional import encoding as enc
+    g = torch.Generator().manual_seed(0)
+    try:
+        out = list(enc.homogeneous_poisson_exp_interval_online(torch.tensor([0.0, 300.0, 150.0]), 50, 1.0, refrac=2.0, generator=g))
+    except RuntimeError as e:
+        return False, f"online encoder raised RuntimeError on the first spike: {str(e)[:120]}"
+    ok = len(out) == 50 and all(tuple(o.shape) == (3,) and o.dtype == torch.bool for o in out) and not any(bool(o[0]) for o in out)
+    return ok, f"online encoder yielded {len(out)} slices"
+
+
 def c20_lognormal_logcdf():
     """C20: log-CDF equals log of the CDF."""
     try:
